@@ -11,7 +11,11 @@ package transport
 
 import (
 	"bytes"
+	"crypto/ed25519"
+	"crypto/rand"
+	"errors"
 	"fmt"
+	"net"
 	"runtime"
 	"runtime/debug"
 	"sort"
@@ -24,6 +28,7 @@ import (
 
 	"hop.computer/hop/authkeys"
 	"hop.computer/hop/certs"
+	"hop.computer/hop/cyclist"
 	"hop.computer/hop/keys"
 	"hop.computer/hop/pkg/verifhook"
 	"verif.local/vlib"
@@ -35,10 +40,15 @@ type c01Ident struct {
 	Chain    int  `json:"chain"`    // 0 trusted chain, 1 chain under an untrusted root, 2 self-signed leaf, 3 trusted leaf but unrelated intermediate presented, 4 trusted leaf, no intermediate presented, 5 leaf properly issued by a forged intermediate that names the trusted root as its parent but is not signed by it
 	Time     int  `json:"time"`     // 0 valid, 1 expired, 2 not yet valid
 	TypeLeaf bool `json:"typeLeaf"` // false: an intermediate-typed certificate is presented as the leaf
-	Name     int  `json:"name"`     // 0 the expected label (raw type), 1 another label, 2 same label but DNS type
+	Name     int  `json:"name"`     // names on the leaf, see c01IdentNames: 0 the expected label (raw type), 1 another label, 2 same label but DNS type, 3 several names, the expected raw label last, 4 several names without the expected raw label, 5 only the explicitly empty raw name, 6 no name at all, 7 only the empty DNS name, 8 the expected label and the empty raw name
 	HoldsKey bool `json:"holdsKey"` // false: presents a certificate for a key it does not hold (impostor)
 	InSet    bool `json:"inSet"`    // the certified key is in the judge's authorized-key set
 	Removed  bool `json:"removed"`  // the certified key WAS added to the judge's authorized-key set and then removed again
+	// Chain == 6 ("bait"): a hand-made certificate whose Parent field is the fingerprint of the certificate presented in
+	// the intermediate slot; Bait says which certificate that is: 1 the untrusted root, 2 the untrusted intermediate, 3 a
+	// leaf of the untrusted world, 4 the TRUSTED root, 5 the trusted intermediate. Never signed by a trusted key.
+	Bait       int  `json:"bait,omitempty"`
+	BaitSigned bool `json:"baitSigned,omitempty"` // Bait 1 and 2: the hand-made certificate is signed with the presented certificate's key
 }
 
 // verification policy of the judging party
@@ -47,7 +57,7 @@ type c01Policy struct {
 	Store    bool `json:"store"`    // trust store contains the honest root
 	AuthKeys bool `json:"authKeys"` // AuthKeysAllowed
 	Skip     bool `json:"skip"`     // InsecureSkipVerify
-	Name     int  `json:"name"`     // expected name: 0 zero, 1 the label (raw), 2 same label DNS type, 3 other label
+	Name     int  `json:"name"`     // expected name, see c01PolicyName: 0 zero, 1 the label (raw), 2 same label DNS type, 3 other label, 4 certs.RawStringName(""), 5 certs.DNSName(""), 6 certs.Name{Label: []byte{}}, 7 the other label that some leaves carry
 	Callback int  `json:"cb"`       // 0 none, 1 accepting, 2 rejecting
 }
 
@@ -58,7 +68,82 @@ type c01Case struct {
 	Policy      c01Policy `json:"policy"`
 }
 
-const c01Label = "peer.verif.test"
+const (
+	c01Label      = "peer.verif.test"
+	c01OtherLabel = "somebody-else.verif.test"
+)
+
+// c01IdentNames: the names on the counterpart's leaf, by code (c01Ident.Name).
+func c01IdentNames(k int) []certs.Name {
+	raw, dns := certs.RawStringName, certs.DNSName
+	emptyRaw := certs.Name{Label: []byte{}, Type: certs.TypeRaw}
+	switch k {
+	case 0:
+		return []certs.Name{raw(c01Label)}
+	case 1:
+		return []certs.Name{raw(c01OtherLabel)}
+	case 2:
+		return []certs.Name{dns(c01Label)}
+	case 3:
+		return []certs.Name{raw(c01OtherLabel), dns(c01Label), raw(c01Label)}
+	case 4:
+		return []certs.Name{raw(c01OtherLabel), dns(c01Label), dns(c01OtherLabel)}
+	case 5:
+		return []certs.Name{emptyRaw}
+	case 6:
+		return nil
+	case 7:
+		return []certs.Name{dns("")}
+	default:
+		return []certs.Name{raw(c01Label), emptyRaw}
+	}
+}
+
+const c01IdentNameKinds = 9
+
+// c01PolicyName: the judge's expected name, by code (c01Policy.Name).
+func c01PolicyName(k int) certs.Name {
+	switch k {
+	case 1:
+		return certs.RawStringName(c01Label)
+	case 2:
+		return certs.DNSName(c01Label)
+	case 3:
+		return certs.RawStringName("not-this-one.verif.test")
+	case 4:
+		return certs.RawStringName("") // what a caller gets from an empty configuration string
+	case 5:
+		return certs.DNSName("")
+	case 6:
+		return certs.Name{Label: []byte{}, Type: certs.TypeRaw}
+	case 7:
+		return certs.RawStringName(c01OtherLabel)
+	}
+	return certs.Name{}
+}
+
+const c01PolicyNameKinds = 8
+
+// c01NameGiven is the documented meaning of "an expected name is configured" (ASSUMPTION, stated in the propdef):
+// VerifyConfig.Name is "compared to the certificate when non-empty", VerifyOptions.Name "if it is non-zero", and the
+// zero value is certs.Name{} - nil label, type 0; "When Label is []byte{} (0-length, non-nil), it does not count as
+// zero. It's an explicitly empty, raw name" (certs.Name.IsZero). A typed name is never zero, whatever its label.
+func c01NameGiven(n certs.Name) bool { return !(n.Label == nil && n.Type == certs.TypeRaw) }
+
+// c01NameOK: reference decision of the name check: no name given, or the leaf carries a name with the same type and
+// the same label bytes (certs.Certificate.MatchesName: "matches the provided name").
+func c01NameOK(policyName, identName int) bool {
+	want := c01PolicyName(policyName)
+	if !c01NameGiven(want) {
+		return true
+	}
+	for _, have := range c01IdentNames(identName) {
+		if have.Type == want.Type && string(have.Label) == string(want.Label) {
+			return true
+		}
+	}
+	return false
+}
 
 type c01Built struct {
 	key      *keys.X25519KeyPair // the key the counterpart actually uses
@@ -67,13 +152,33 @@ type c01Built struct {
 	certKey  keys.DHPublicKey // the key named in the certificate
 }
 
-var c01Other *vWorld // an unrelated certificate world (untrusted root)
+var (
+	c01Other        *vWorld // an unrelated certificate world (untrusted root)
+	c01OtherRootKey *keys.SigningKeyPair
+	c01OtherIntKey  *keys.SigningKeyPair
+	c01OtherLeaf    *certs.Certificate
+)
 
 func c01OtherWorld() *vWorld {
 	if c01Other == nil {
 		w := &vWorld{}
-		w.Root = vSigningCert("other-root", nil)
-		w.Inter = vSigningCert("other-intermediate", w.Root)
+		mk := func(name string, parent *certs.Certificate) (*certs.Certificate, *keys.SigningKeyPair) {
+			k := keys.GenerateNewSigningKeyPair()
+			id := certs.Identity{PublicKey: k.Public, Names: []certs.Name{certs.RawStringName(name)}}
+			var c *certs.Certificate
+			var err error
+			if parent == nil {
+				c, err = certs.SelfSignRoot(&id, k)
+			} else {
+				c, err = certs.IssueIntermediate(parent, &id)
+			}
+			vMust(err)
+			vMust(c.ProvideKey((*[32]byte)(&k.Private)))
+			return c, k
+		}
+		w.Root, c01OtherRootKey = mk("other-root", nil)
+		w.Inter, c01OtherIntKey = mk("other-intermediate", w.Root)
+		_, c01OtherLeaf = vLeaf(w.Inter, "other-leaf")
 		c01Other = w
 	}
 	return c01Other
@@ -103,18 +208,29 @@ func c01ForgedInter() *certs.Certificate {
 	return re
 }
 
+// c01HandMade builds a certificate without the issuing API: the fields are written by hand, Parent names an arbitrary
+// certificate, and the signature is either absent (zero) or made with signer's key. It is serialised and parsed again,
+// so that it is exactly what a peer could put on the wire.
+func c01HandMade(typ certs.CertificateType, key keys.DHPublicKey, names []certs.Name, parent *certs.Certificate, signer *keys.SigningKeyPair, from, to time.Time) *certs.Certificate {
+	c := &certs.Certificate{Version: certs.Version, Type: typ, IssuedAt: from, ExpiresAt: to, IDChunk: certs.IDChunk{Blocks: names}, PublicKey: key, Parent: parent.Fingerprint}
+	raw, err := c.Marshal()
+	vMust(err)
+	if signer != nil {
+		sig := ed25519.Sign(ed25519.NewKeyFromSeed(signer.Private[:]), raw[:len(raw)-certs.SignatureLen])
+		copy(c.Signature[:], sig)
+		raw, err = c.Marshal()
+		vMust(err)
+	}
+	re := &certs.Certificate{}
+	_, err = re.ReadFrom(bytes.NewReader(raw))
+	vMust(err)
+	return re
+}
+
 func c01Build(id c01Ident) c01Built {
 	w := vGetWorld()
 	certKP := keys.GenerateNewX25519KeyPair()
-	var names []certs.Name
-	switch id.Name {
-	case 0:
-		names = []certs.Name{certs.RawStringName(c01Label)}
-	case 1:
-		names = []certs.Name{certs.RawStringName("somebody-else.verif.test")}
-	default:
-		names = []certs.Name{certs.DNSName(c01Label)}
-	}
+	names := c01IdentNames(id.Name)
 	ident := &certs.Identity{PublicKey: certKP.Public, Names: names}
 	// the issuing API requires the parent to be valid at issuance time; the world's CA certificates were
 	// issued at T0 (= w.Now - 1 min), so every leaf is issued inside [T0, ...)
@@ -140,6 +256,30 @@ func c01Build(id c01Ident) c01Built {
 		parent = c01ForgedInter()
 	}
 	switch {
+	case id.Chain == 6:
+		// bait: Parent names whatever is presented in the intermediate slot
+		o := c01OtherWorld()
+		var signer *keys.SigningKeyPair
+		switch id.Bait {
+		case 2:
+			b.inter, signer = o.Inter, c01OtherIntKey
+		case 3:
+			b.inter = c01OtherLeaf
+		case 4:
+			b.inter = w.Root
+		case 5:
+			b.inter = w.Inter
+		default:
+			b.inter, signer = o.Root, c01OtherRootKey
+		}
+		if !id.BaitSigned {
+			signer = nil
+		}
+		typ := certs.Leaf
+		if !id.TypeLeaf {
+			typ = certs.Intermediate
+		}
+		b.leaf = c01HandMade(typ, certKP.Public, names, b.inter, signer, issuedAt, issuedAt.Add(validity))
 	case id.Chain == 2:
 		// self-signed leaf (always "valid now": SelfSignLeaf has no validity knobs) unless a non-leaf type is wanted
 		b.leaf, err = certs.SelfSignLeaf(ident)
@@ -187,15 +327,7 @@ func c01Truth(id c01Ident, p c01Policy, b c01Built) (ok bool, why string) {
 		return true, "verification-skipped"
 	}
 	typeLeaf := id.TypeLeaf || id.Chain == 2
-	nameOK := true
-	switch p.Name {
-	case 1:
-		nameOK = id.Name == 0
-	case 2:
-		nameOK = id.Name == 2
-	case 3:
-		nameOK = false
-	}
+	nameOK := c01NameOK(p.Name, id.Name)
 	if p.AuthKeys && typeLeaf && nameOK && id.InSet {
 		return true, "authorized-key"
 	}
@@ -235,14 +367,7 @@ func c01Verify(p c01Policy, b c01Built) *VerifyConfig {
 	}
 	vc.AuthKeys = authkeys.NewSyncAuthKeySet()
 	vc.AuthKeys.AddKey(keys.GenerateNewX25519KeyPair().Public) // some unrelated key
-	switch p.Name {
-	case 1:
-		vc.Name = certs.RawStringName(c01Label)
-	case 2:
-		vc.Name = certs.DNSName(c01Label)
-	case 3:
-		vc.Name = certs.RawStringName("not-this-one.verif.test")
-	}
+	vc.Name = c01PolicyName(p.Name)
 	switch p.Callback {
 	case 1:
 		vc.AddVerifyCallback = func(*certs.Certificate) error { return nil }
@@ -330,42 +455,72 @@ func c01Run(t *testing.T) func(c c01Case, v *vlib.Verdict) {
 			}
 			return
 		}
-		b := c01Built{}
-		ok, why := c01Truth(c.Ident, c.Policy, b)
 		mode := map[bool]string{false: "discoverable", true: "hidden"}[c.Hidden]
 		side := map[bool]string{true: "client-judges-server", false: "server-judges-client"}[c.JudgeClient]
+		_, why := c01Truth(c.Ident, c.Policy, c01Built{})
 		v.Label(mode + ":" + side)
 		v.Label("expected:" + why)
-		honest := c.Ident == c01Ident{TypeLeaf: true, HoldsKey: true} || c.Ident == c01Ident{TypeLeaf: true, HoldsKey: true, InSet: true}
-		v.NonTrivial = !honest
+		c01NameLabels(v, c.Ident, c.Policy)
+		v.NonTrivial = !c01Honest(c.Ident)
 		v.Key = fmt.Sprintf("%+v", c)
-		if c.JudgeClient {
-			if r.cliErr == nil && !ok {
-				v.Failf(fmt.Sprintf("C01:client-accepts-server:%s:%s", mode, why), "Client.Handshake succeeded although the server %s (identity %+v, policy %+v)", why, c.Ident, c.Policy)
-				return
-			}
-			if r.cliErr != nil && ok && honest {
-				v.Failf("C01:sanity:honest-server-rejected:"+mode, "honest valid server rejected under policy %+v: %v", c.Policy, r.cliErr)
-			}
-			return
-		}
-		// the server judges the client
-		if !ok {
-			if !c.Hidden && r.accepted {
-				v.Failf(fmt.Sprintf("C01:server-offers-connection:%s:%s", mode, why), "Accept offered a connection although the client %s (identity %+v, policy %+v)", why, c.Ident, c.Policy)
-				return
-			}
-			if r.delivered {
-				v.Failf(fmt.Sprintf("C01:server-delivers-data:%s:%s", mode, why), "the server delivered application data although the client %s (identity %+v, policy %+v)", why, c.Ident, c.Policy)
-				return
-			}
-			if c.Hidden && r.accepted {
-				v.Label("hidden:connection-offered-before-proof(allowed)")
-			}
-		} else if honest && (!r.accepted || !r.delivered) {
-			v.Failf("C01:sanity:honest-client-rejected:"+mode, "honest valid client not served under policy %+v: client err %v accepted %v delivered %v", c.Policy, r.cliErr, r.accepted, r.delivered)
-		}
+		c01Judge(v, c.Hidden, c.JudgeClient, c.Ident, c.Policy, r, "", true, "")
 	}
+}
+
+func c01Honest(id c01Ident) bool {
+	return id == c01Ident{TypeLeaf: true, HoldsKey: true} || id == c01Ident{TypeLeaf: true, HoldsKey: true, InSet: true}
+}
+
+// c01NameLabels classifies the degenerate-but-legal expected names.
+func c01NameLabels(v *vlib.Verdict, id c01Ident, p c01Policy) {
+	if p.Nil || p.Skip {
+		return
+	}
+	want := c01PolicyName(p.Name)
+	if c01NameGiven(want) && len(want.Label) == 0 {
+		v.Label(fmt.Sprintf("expected-name:empty-label-but-given:leaf-carries-it=%v", c01NameOK(p.Name, id.Name)))
+	}
+	if c01NameGiven(want) && len(c01IdentNames(id.Name)) > 1 {
+		v.Label(fmt.Sprintf("expected-name:leaf-with-several-names:one-matches=%v", c01NameOK(p.Name, id.Name)))
+	}
+}
+
+// c01Judge applies the oracle (implications only) to the outcome r of ONE handshake of the counterpart id judged under
+// policy p. suffix qualifies the signatures of a family (empty for the matrix), where goes into the detail text, sanity
+// says whether the honest-identity clause applies to this handshake. It returns false when a violation was reported.
+func c01Judge(v *vlib.Verdict, hidden, judgeClient bool, id c01Ident, p c01Policy, r c01Result, suffix string, sanity bool, where string) bool {
+	ok, why := c01Truth(id, p, c01Built{})
+	mode := map[bool]string{false: "discoverable", true: "hidden"}[hidden]
+	honest := c01Honest(id)
+	if judgeClient {
+		if r.cliErr == nil && !ok {
+			v.Failf(fmt.Sprintf("C01:client-accepts-server:%s:%s%s", mode, why, suffix), "Client.Handshake succeeded although the server %s (identity %+v, policy %+v)%s", why, id, p, where)
+			return false
+		}
+		if sanity && r.cliErr != nil && ok && honest {
+			v.Failf("C01:sanity:honest-server-rejected:"+mode+suffix, "honest valid server rejected under policy %+v: %v%s", p, r.cliErr, where)
+			return false
+		}
+		return true
+	}
+	// the server judges the client
+	if !ok {
+		if !hidden && r.accepted {
+			v.Failf(fmt.Sprintf("C01:server-offers-connection:%s:%s%s", mode, why, suffix), "Accept offered a connection although the client %s (identity %+v, policy %+v)%s", why, id, p, where)
+			return false
+		}
+		if r.delivered {
+			v.Failf(fmt.Sprintf("C01:server-delivers-data:%s:%s%s", mode, why, suffix), "the server delivered application data although the client %s (identity %+v, policy %+v)%s", why, id, p, where)
+			return false
+		}
+		if hidden && r.accepted {
+			v.Label("hidden:connection-offered-before-proof(allowed)")
+		}
+	} else if sanity && honest && (!r.accepted || !r.delivered) {
+		v.Failf("C01:sanity:honest-client-rejected:"+mode+suffix, "honest valid client not served under policy %+v: client err %v accepted %v delivered %v%s", p, r.cliErr, r.accepted, r.delivered, where)
+		return false
+	}
+	return true
 }
 
 func c01Policies(server bool) []c01Policy {
@@ -373,8 +528,11 @@ func c01Policies(server bool) []c01Policy {
 	for _, store := range []bool{true, false} {
 		for _, ak := range []bool{false, true} {
 			for _, skip := range []bool{false, true} {
-				for name := 0; name <= 3; name++ {
+				for name := 0; name < c01PolicyNameKinds; name++ {
 					for cb := 0; cb <= 2; cb++ {
+						if name > 3 && cb != 0 {
+							continue // the degenerate expected names are not crossed with the additional callback
+						}
 						out = append(out, c01Policy{Store: store, AuthKeys: ak, Skip: skip, Name: name, Callback: cb})
 					}
 				}
@@ -412,11 +570,21 @@ func c01Idents() []c01Ident {
 	add(func(i *c01Ident) { i.Chain = 2; i.HoldsKey = false })
 	out = append(out, c01Ident{TypeLeaf: true, HoldsKey: true, Chain: 2, Removed: true}, c01Ident{TypeLeaf: true, HoldsKey: true, Chain: 1, Removed: true})
 	add(func(i *c01Ident) { i.Chain = 1; i.Time = 1 })
+	for n := 3; n < c01IdentNameKinds; n++ {
+		n := n
+		add(func(i *c01Ident) { i.Name = n })
+	}
+	for bait := 1; bait <= 5; bait++ {
+		bait := bait
+		add(func(i *c01Ident) { i.Chain = 6; i.Bait = bait })
+	}
+	add(func(i *c01Ident) { i.Chain = 6; i.Bait = 1; i.BaitSigned = true })
 	return out
 }
 
 // TestVerifC01Matrix enumerates mode x direction x counterpart kind x policy.
 func TestVerifC01Matrix(t *testing.T) {
+	c01SelfTest(t)
 	run := c01Run(t)
 	if vlib.ReplayEnumerated(t, "C01", run) {
 		return
@@ -442,28 +610,65 @@ func TestVerifC01Matrix(t *testing.T) {
 	rec.Extra("enumerated", fmt.Sprintf("2 modes x 2 directions x %d counterpart kinds x %d policies (+nil policy on the server side)", len(c01Idents()), len(c01Policies(false))))
 }
 
+// c01SelfTest checks the fixtures the new dimensions rest on (machinery, never a violation).
+func c01SelfTest(t *testing.T) {
+	if n := certs.RawStringName(""); n.Label == nil || len(n.Label) != 0 {
+		t.Fatalf("VERIF-MACHINERY certs.RawStringName(\"\") does not yield the explicitly empty name (label %#v): the empty-expected-name dimension would be vacuous", n.Label)
+	}
+	for k := 0; k < c01PolicyNameKinds; k++ {
+		if want := k != 0; c01NameGiven(c01PolicyName(k)) != want {
+			t.Fatalf("VERIF-MACHINERY expected-name code %d: given=%v, want %v", k, !want, want)
+		}
+	}
+	// the reference name decision against the table it was written from
+	for _, x := range []struct {
+		p, id int
+		ok    bool
+	}{{0, 1, true}, {0, 6, true}, {1, 0, true}, {1, 2, false}, {1, 3, true}, {1, 4, false}, {2, 2, true}, {2, 3, true}, {2, 0, false}, {3, 3, false},
+		{4, 0, false}, {4, 5, true}, {4, 6, false}, {4, 7, false}, {4, 8, true}, {5, 5, false}, {5, 7, true}, {6, 5, true}, {6, 1, false}, {7, 1, true}, {7, 4, true}, {7, 0, false}} {
+		if c01NameOK(x.p, x.id) != x.ok {
+			t.Fatalf("VERIF-MACHINERY name reference: expected name %d against leaf names %d gives %v", x.p, x.id, !x.ok)
+		}
+	}
+}
+
+func c01GenIdent(t *rapid.T) c01Ident {
+	id := c01Ident{
+		Chain:    rapid.SampledFrom([]int{0, 0, 1, 2, 3, 4, 5, 6}).Draw(t, "chain"),
+		Time:     rapid.SampledFrom([]int{0, 0, 1, 2}).Draw(t, "time"),
+		TypeLeaf: rapid.SampledFrom([]bool{true, true, true, false}).Draw(t, "typeLeaf"),
+		Name:     rapid.SampledFrom([]int{0, 0, 0, 1, 2, 3, 4, 5, 6, 7, 8}).Draw(t, "name"),
+		HoldsKey: rapid.SampledFrom([]bool{true, true, false}).Draw(t, "holdsKey"),
+		InSet:    rapid.Bool().Draw(t, "inSet"),
+		Removed:  rapid.Bool().Draw(t, "removed"),
+	}
+	if id.Chain == 6 {
+		id.Bait = rapid.IntRange(1, 5).Draw(t, "bait")
+		id.BaitSigned = id.Bait <= 2 && rapid.Bool().Draw(t, "baitSigned")
+	}
+	return id
+}
+
+func c01GenPolicy(t *rapid.T, server bool) c01Policy {
+	p := c01Policy{
+		Store:    rapid.SampledFrom([]bool{true, true, false}).Draw(t, "store"),
+		AuthKeys: rapid.Bool().Draw(t, "authKeys"),
+		Skip:     rapid.SampledFrom([]bool{false, false, false, true}).Draw(t, "skip"),
+		Name:     rapid.SampledFrom([]int{0, 1, 1, 2, 3, 4, 4, 5, 6, 7}).Draw(t, "pname"),
+		Callback: rapid.SampledFrom([]int{0, 0, 1, 2}).Draw(t, "cb"),
+	}
+	if server && rapid.SampledFrom([]int{0, 0, 0, 0, 0, 0, 0, 1}).Draw(t, "nilpolicy") == 1 {
+		p = c01Policy{Nil: true}
+	}
+	return p
+}
+
 func TestVerifC01Random(t *testing.T) {
+	c01SelfTest(t)
 	vlib.Drive(t, vlib.Spec[c01Case]{ID: "C01", Quick: 3000, Run: c01Run(t), Gen: func(t *rapid.T) c01Case {
 		c := c01Case{Hidden: rapid.Bool().Draw(t, "hidden"), JudgeClient: rapid.Bool().Draw(t, "judgeClient")}
-		c.Ident = c01Ident{
-			Chain:    rapid.SampledFrom([]int{0, 0, 1, 2, 3, 4, 5}).Draw(t, "chain"),
-			Time:     rapid.SampledFrom([]int{0, 0, 1, 2}).Draw(t, "time"),
-			TypeLeaf: rapid.SampledFrom([]bool{true, true, true, false}).Draw(t, "typeLeaf"),
-			Name:     rapid.SampledFrom([]int{0, 0, 1, 2}).Draw(t, "name"),
-			HoldsKey: rapid.SampledFrom([]bool{true, true, false}).Draw(t, "holdsKey"),
-			InSet:    rapid.Bool().Draw(t, "inSet"),
-			Removed:  rapid.Bool().Draw(t, "removed"),
-		}
-		c.Policy = c01Policy{
-			Store:    rapid.SampledFrom([]bool{true, true, false}).Draw(t, "store"),
-			AuthKeys: rapid.Bool().Draw(t, "authKeys"),
-			Skip:     rapid.SampledFrom([]bool{false, false, false, true}).Draw(t, "skip"),
-			Name:     rapid.SampledFrom([]int{0, 1, 1, 2, 3}).Draw(t, "pname"),
-			Callback: rapid.SampledFrom([]int{0, 0, 1, 2}).Draw(t, "cb"),
-		}
-		if !c.JudgeClient && rapid.SampledFrom([]int{0, 0, 0, 0, 0, 0, 0, 1}).Draw(t, "nilpolicy") == 1 {
-			c.Policy = c01Policy{Nil: true}
-		}
+		c.Ident = c01GenIdent(t)
+		c.Policy = c01GenPolicy(t, !c.JudgeClient)
 		return c
 	}})
 }
@@ -1018,4 +1223,630 @@ func c01rGen(t *rapid.T) c01rCase {
 // TestVerifC01RealClock: sequences of handshakes under the (virtual) clock with CurrentTime left zero.
 func TestVerifC01RealClock(t *testing.T) {
 	vlib.Drive(t, vlib.Spec[c01rCase]{ID: "C01", Quick: 2000, Gen: c01rGen, Run: c01rRun(t)})
+}
+
+// ---------------------------------------------------------------------------------------------------------------------
+// Family "long-lived verifier": a SEQUENCE of handshakes by generated counterparts against ONE verifier - one Server with
+// one ClientVerify (server judges), or one VerifyConfig value reused by successive Clients, each facing its own server
+// (client judges; the copies share the trust store's map and the authorized-key set, as successive connections of one
+// process do). Reference decision of every handshake: the decision for that identity ALONE (c01Truth) - verification
+// must not depend on what earlier peers presented. The identities include "bait" chains: a hand-made certificate whose
+// Parent names whatever certificate is presented in the intermediate slot (a root, an intermediate, a leaf; the
+// attacker's or the trusted ones).
+//
+// Family "certificate lookups fail" (server judges): the server is configured the way hopserver.NewHopServer configures
+// it - ServerConfig.GetCertificate / GetCertList callbacks over a host table - and the callbacks FAIL at generated call
+// numbers, from a generated call number on, or for the host name the certificate list advertises (the pair disagrees
+// while a reload is in progress). Besides the real Client the counterpart can be a PUPPET: a harness-side client that
+// writes the handshake messages with the package's own writers, presents a certificate chain (typically the victim's
+// public chain, without its private key), and then sends data packets sealed under EVERY set of session keys it can
+// compute - from its transcript after each of its own messages, and after the server's answer processed with the key it
+// really holds. It learns the session ID from the wire (handshake answer, or the greeting the server application writes
+// on an offered connection) or is told it (session IDs travel in the clear in every packet). Oracle unchanged.
+
+type c01sStep struct {
+	Ident  c01Ident `json:"ident"`
+	Puppet bool     `json:"puppet,omitempty"` // server judges: the counterpart is the puppet, not the real Client
+	Grant  bool     `json:"grant,omitempty"`  // puppet: told the session ID when it did not see one on the wire
+	SNI    int      `json:"sni,omitempty"`    // server judges: 0 the client asks for the server's name, 1 for a name the host table does not know
+}
+
+type c01sCase struct {
+	Hidden      bool       `json:"hidden"`
+	JudgeClient bool       `json:"judgeIsClient"`
+	Policy      c01Policy  `json:"policy"`
+	Steps       []c01sStep `json:"steps"`
+	// server judges only: certificate callbacks and their fault plan
+	Custom       bool `json:"custom,omitempty"`       // GetCertificate / GetCertList callbacks instead of the Certificate / KeyPair fields
+	CertFail     int  `json:"certFail,omitempty"`     // bit k: the k-th GetCertificate call of the server's life fails
+	CertFailFrom int  `json:"certFailFrom,omitempty"` // > 0: every GetCertificate call with number >= CertFailFrom-1 fails
+	ListFail     int  `json:"listFail,omitempty"`     // bit k: the k-th GetCertList call fails
+	Alias        bool `json:"alias,omitempty"`        // GetCertList advertises the certificate under a host name GetCertificate's table does not know
+	Greets       bool `json:"greets,omitempty"`       // the server application writes a greeting on every connection Accept offers
+}
+
+type c01Lookup struct {
+	mu                   sync.Mutex
+	certCalls, listCalls int
+	failures             int
+}
+
+func (l *c01Lookup) failed() int { l.mu.Lock(); defer l.mu.Unlock(); return l.failures }
+
+// c01CallbackConfig replaces the static certificate fields of base by callbacks over a one-entry host table.
+func c01CallbackConfig(base ServerConfig, c c01sCase, lk *c01Lookup) ServerConfig {
+	tc, err := MakeCert(base.KeyPair, base.Certificate, base.Intermediate, base.KEMKeyPair)
+	vMust(err)
+	host := string(vGetWorld().ServerName.Label)
+	tc.HostNames = []string{host}
+	if c.Alias {
+		tc.HostNames = []string{"alias-being-reloaded.verif.test", host}
+	}
+	table := map[string]*Certificate{host: tc}
+	cfg := base
+	cfg.KeyPair, cfg.KEMKeyPair, cfg.Certificate, cfg.Intermediate = nil, nil, nil, nil
+	cfg.GetCertificate = func(info ClientHandshakeInfo) (*Certificate, error) {
+		lk.mu.Lock()
+		defer lk.mu.Unlock()
+		k := lk.certCalls
+		lk.certCalls++
+		if (k < 30 && c.CertFail>>uint(k)&1 == 1) || (c.CertFailFrom > 0 && k >= c.CertFailFrom-1) {
+			lk.failures++
+			return nil, errors.New("certificate lookup failed: reload in progress")
+		}
+		if h, ok := table[string(info.ServerName.Label)]; ok {
+			return h, nil
+		}
+		lk.failures++
+		return nil, fmt.Errorf("%q did not match a host block", info.ServerName.Label)
+	}
+	cfg.GetCertList = func() ([]*Certificate, error) {
+		lk.mu.Lock()
+		defer lk.mu.Unlock()
+		k := lk.listCalls
+		lk.listCalls++
+		if k < 30 && c.ListFail>>uint(k)&1 == 1 {
+			lk.failures++
+			return nil, errors.New("certificate list unavailable: reload in progress")
+		}
+		return []*Certificate{tc}, nil
+	}
+	return cfg
+}
+
+// --- the puppet
+
+type c01Cut struct {
+	name   string
+	duplex cyclist.Cyclist // the puppet's transcript at that point (a value: copying it is a snapshot)
+}
+
+type c01Puppet struct {
+	sock    *simnet.Sock
+	addr    *net.UDPAddr
+	hs      *HandshakeState
+	cuts    []c01Cut
+	sid     SessionID
+	haveSid bool
+	buf     []byte
+}
+
+func c01NewPuppet(n *simnet.Net, addr *net.UDPAddr, b c01Built, sni certs.Name) *c01Puppet {
+	p := &c01Puppet{sock: n.Dial(addr, vSrvAddr), addr: addr, buf: make([]byte, 65535)}
+	hs := new(HandshakeState)
+	hs.duplex.InitializeEmpty()
+	hs.dh = new(dhState)
+	hs.dh.ephemeral.Generate()
+	hs.dh.static = b.key // the key the puppet really holds
+	hs.kem = new(kemState)
+	eph, err := keys.GenerateKEMKeyPair(rand.Reader)
+	vMust(err)
+	hs.kem.ephemeral = *eph
+	hs.leaf, err = b.leaf.Marshal()
+	vMust(err)
+	if b.inter != nil {
+		hs.intermediate, err = b.inter.Marshal()
+		vMust(err)
+	}
+	hs.remoteAddr = vSrvAddr
+	hs.certVerify = &VerifyConfig{InsecureSkipVerify: true, Name: sni} // the puppet does not judge the server
+	p.hs = hs
+	return p
+}
+
+func (p *c01Puppet) cut(name string) { p.cuts = append(p.cuts, c01Cut{name, p.hs.duplex}) }
+
+func (p *c01Puppet) send(b []byte) { p.sock.WriteMsgUDP(b, nil, vSrvAddr) }
+
+func (p *c01Puppet) recv(d time.Duration) []byte {
+	p.sock.SetReadDeadline(time.Now().Add(d))
+	n, _, _, _, err := p.sock.ReadMsgUDP(p.buf, nil)
+	if err != nil {
+		return nil
+	}
+	return append([]byte(nil), p.buf[:n]...)
+}
+
+// note learns the session ID from a datagram of the server that carries one in the clear.
+func (p *c01Puppet) note(d []byte) {
+	if len(d) < HeaderLen+SessionIDLen {
+		return
+	}
+	switch MessageType(d[0]) {
+	case MessageTypeServerAuth, MessageTypeServerResponseHidden, MessageTypeTransport, MessageTypeControl:
+		copy(p.sid[:], d[HeaderLen:HeaderLen+SessionIDLen])
+		p.haveSid = true
+	}
+}
+
+// handshake plays the client's part with the package's own message writers and readers, whatever they answer.
+func (p *c01Puppet) handshake(hidden bool, kem *keys.KEMPublicKey) {
+	hs := p.hs
+	if hidden {
+		hs.duplex.Absorb([]byte(PostQuantumHiddenProtocolName))
+		hs.RekeyFromSqueeze(PostQuantumHiddenProtocolName)
+		n, err := hs.writePQClientRequestHidden(p.buf, kem)
+		if err != nil {
+			return
+		}
+		p.cut("after-its-own-request")
+		p.send(p.buf[:n])
+		resp := p.recv(time.Second)
+		if len(resp) < HeaderLen+SessionIDLen+KemCtLen+2*MacLen || MessageType(resp[0]) != MessageTypeServerResponseHidden {
+			return
+		}
+		p.note(resp)
+		if encLen := int(resp[2])<<8 + int(resp[3]); len(resp) >= HeaderLen+SessionIDLen+KemCtLen+encLen+2*MacLen {
+			// everything the response contributes except DH(static, static)
+			d := hs.duplex
+			d.Absorb(resp[:HeaderLen])
+			d.Absorb(resp[HeaderLen : HeaderLen+SessionIDLen])
+			if ek, err := hs.kem.ephemeral.Decapsulate(resp[HeaderLen+SessionIDLen : HeaderLen+SessionIDLen+KemCtLen]); err == nil {
+				d.Absorb(ek)
+				off := HeaderLen + SessionIDLen + KemCtLen
+				if _, _, err := DecryptCertificates(&d, resp[off:off+encLen]); err == nil {
+					var tag [MacLen]byte
+					d.Squeeze(tag[:])
+					p.cuts = append(p.cuts, c01Cut{"after-the-response-without-static-dh", d})
+				}
+			}
+		}
+		hs.readPQServerResponseHidden(resp) // with the static key it holds; the result does not matter to a puppet
+		p.cut("after-the-response")
+		return
+	}
+	hs.duplex.Absorb([]byte(PostQuantumProtocolName))
+	n, err := writePQClientHello(hs, p.buf)
+	if err != nil {
+		return
+	}
+	p.send(p.buf[:n])
+	sh := p.recv(time.Second)
+	if sh == nil {
+		return
+	}
+	if n, err := readPQServerHello(hs, sh); err != nil || n != len(sh) {
+		return
+	}
+	hs.RekeyFromSqueeze(PostQuantumProtocolName)
+	if n, err = hs.writePQClientAck(p.buf); err != nil {
+		return
+	}
+	p.cut("after-its-own-ack")
+	p.send(p.buf[:n])
+	sa := p.recv(time.Second)
+	if sa == nil {
+		return
+	}
+	p.note(sa)
+	_, err = hs.readPQServerAuth(sa)
+	p.cut("after-server-auth")
+	if err != nil {
+		return
+	}
+	if n, err = hs.writePQClientAuth(p.buf); err != nil {
+		return
+	}
+	p.cut("after-its-own-client-auth")
+	p.send(p.buf[:n])
+}
+
+// learn looks at everything the network delivered to the puppet's address.
+func (p *c01Puppet) learn(n *simnet.Net) {
+	for _, d := range n.DeliveredSnapshot() {
+		if simnetEq(d.Dst, p.addr) {
+			p.note(d.Data)
+		}
+	}
+}
+
+const c01PuppetPayload = "c01 puppet payload, sealed under the keys of its transcript "
+
+// sendData sends one data packet per key set the puppet can compute.
+func (p *c01Puppet) sendData() {
+	for i, c := range p.cuts {
+		tmp := HandshakeState{duplex: c.duplex}
+		ss := &SessionState{sessionID: p.sid}
+		if tmp.deriveFinalKeys(&ss.clientToServerKey, &ss.serverToClientKey) != nil {
+			continue
+		}
+		ss.count = uint64(i)
+		pkt, err := ss.sealPacketLocked(MessageTypeTransport, []byte(c01PuppetPayload+c.name), &ss.clientToServerKey)
+		if err != nil {
+			continue
+		}
+		p.send(pkt)
+	}
+}
+
+// --- scenario
+
+type c01sResult struct {
+	c01Result
+	fault   bool   // a certificate callback failed while this handshake ran
+	got     string // what the application read
+	learnt  string // how the puppet came by the session ID
+	tried   int    // key sets the puppet tried
+}
+
+func c01sSNI(k int) certs.Name {
+	if k == 1 {
+		return certs.RawStringName("no-such-host.verif.test")
+	}
+	return vGetWorld().ServerName
+}
+
+func c01sHandleAddr(h *Handle) *net.UDPAddr {
+	h.ss.m.Lock()
+	defer h.ss.m.Unlock()
+	return h.ss.remoteAddr
+}
+
+func c01sScenario(c c01sCase) (out []c01sResult) {
+	w := vGetWorld()
+	builts := make([]c01Built, len(c.Steps))
+	for i, st := range c.Steps {
+		builts[i] = c01Build(st.Ident)
+	}
+	// ONE policy object for the whole sequence
+	vc := c01Verify(c.Policy, c01Built{})
+	if vc != nil {
+		for i, st := range c.Steps {
+			if st.Ident.InSet {
+				vc.AuthKeys.AddKey(builts[i].certKey)
+			}
+			if st.Ident.Removed && !st.Ident.InSet {
+				vc.AuthKeys.AddKey(builts[i].certKey)
+				vc.AuthKeys.RemoveKey(builts[i].certKey)
+			}
+		}
+	}
+	handshake := func(cli *Client) (err error) {
+		done := make(chan error, 1)
+		go func() { done <- cli.Handshake() }()
+		select {
+		case err = <-done:
+		case <-time.After(20 * time.Second):
+			cli.Close()
+			if err = <-done; err == nil {
+				err = fmt.Errorf("handshake did not return within 20 virtual seconds")
+			}
+		}
+		return err
+	}
+	if c.JudgeClient {
+		for i := range c.Steps {
+			b := builts[i]
+			scfg := w.ServerConfig(c.Hidden)
+			scfg.KeyPair, scfg.Certificate, scfg.Intermediate = b.key, b.leaf, b.inter
+			env := vStartServer(scfg)
+			ccfg := w.ClientConfig(c.Hidden, false)
+			ccfg.Verify = *vc // a copy of the one value: the store's map and the key set are shared
+			cli, _ := env.NewClient(vCliAddr, ccfg)
+			var r c01sResult
+			r.cliErr = handshake(cli)
+			cli.Close()
+			env.Stop()
+			out = append(out, r)
+		}
+		return out
+	}
+	scfg := w.ServerConfig(c.Hidden)
+	scfg.ClientVerify = vc
+	lk := &c01Lookup{}
+	if c.Custom {
+		scfg = c01CallbackConfig(scfg, c, lk)
+	}
+	env := vStartServer(scfg)
+	defer env.Stop()
+	for i, st := range c.Steps {
+		b := builts[i]
+		addr := simnet.Addr("10.0.0.2", 41000+i)
+		var r c01sResult
+		before := lk.failed()
+		var cli *Client
+		var pup *c01Puppet
+		if st.Puppet {
+			pup = c01NewPuppet(env.Net, addr, b, c01sSNI(st.SNI))
+			pk := w.SrvKEM.Public
+			pup.handshake(c.Hidden, &pk)
+			r.cliErr = fmt.Errorf("puppet")
+		} else {
+			ccfg := w.ClientConfig(c.Hidden, false)
+			ccfg.Exchanger, ccfg.Leaf, ccfg.Intermediate = b.key, b.leaf, b.inter
+			ccfg.Verify.Name = c01sSNI(st.SNI)
+			if st.SNI != 0 {
+				ccfg.Verify.InsecureSkipVerify = true // this client asks for another host and takes whatever certificate comes
+			}
+			cli, _ = env.NewClient(addr, ccfg)
+			r.cliErr = handshake(cli)
+		}
+		// the application: accept whatever is offered
+		var mine []*Handle
+		wait := time.Second
+		for {
+			h, err := env.Srv.AcceptTimeout(wait)
+			if err != nil || h == nil {
+				break
+			}
+			wait = 10 * time.Millisecond
+			if simnetEq(c01sHandleAddr(h), addr) {
+				mine = append(mine, h)
+			} else {
+				h.Close() // offered late for an earlier peer: judged there as "not offered", nothing is read from it
+			}
+		}
+		r.accepted = len(mine) > 0
+		if c.Greets {
+			for _, h := range mine {
+				h.WriteMsg([]byte("welcome, whoever you proved to be"))
+			}
+			time.Sleep(5 * time.Millisecond)
+		}
+		if pup != nil {
+			if pup.haveSid {
+				r.learnt = "handshake-answer"
+			} else if pup.learn(env.Net); pup.haveSid {
+				r.learnt = "greeting"
+			} else if st.Grant {
+				env.Srv.m.RLock()
+				for id, ss := range env.Srv.sessions {
+					ss.m.Lock()
+					if simnetEq(ss.remoteAddr, addr) {
+						pup.sid, pup.haveSid = id, true
+					}
+					ss.m.Unlock()
+				}
+				env.Srv.m.RUnlock()
+				if pup.haveSid {
+					r.learnt = "told"
+				}
+			}
+			if pup.haveSid {
+				r.tried = len(pup.cuts)
+				pup.sendData()
+			}
+		} else if r.cliErr == nil {
+			cli.WriteMsg([]byte(fmt.Sprintf("c01 probe payload of step %d", i)))
+		}
+		for _, h := range mine {
+			buf := make([]byte, 300)
+			h.SetReadDeadline(time.Now().Add(time.Second))
+			if n, err := h.ReadMsg(buf); err == nil && n > 0 {
+				r.delivered = true
+				r.got = string(buf[:n])
+			}
+			h.Close()
+		}
+		if cli != nil {
+			cli.Close()
+		}
+		if pup != nil {
+			pup.sock.Close()
+		}
+		r.fault = lk.failed() != before
+		out = append(out, r)
+	}
+	return out
+}
+
+func c01sRun(t *testing.T) func(c c01sCase, v *vlib.Verdict) {
+	return func(c c01sCase, v *vlib.Verdict) {
+		var rs []c01sResult
+		res := vlib.Bubble(t, 60*time.Second, func() { rs = c01sScenario(c) })
+		if res.Hung {
+			v.Inconclusive = "bubble hung in real time (C01 long-lived verifier)"
+			return
+		}
+		if res.Panic != "" {
+			if res.Leak() || res.Deadlock() {
+				v.Failf("C01:goroutines-left:"+fmt.Sprint(vlib.BlockedHopFrames(res.Stacks)), "after closing clients and server goroutines remain: %v", vlib.BlockedHopFrames(res.Stacks))
+			} else {
+				v.Failf(vlib.PanicSig(res.Panic, res.Stacks), "panic: %s", res.Panic)
+			}
+			return
+		}
+		mode := map[bool]string{false: "discoverable", true: "hidden"}[c.Hidden]
+		side := map[bool]string{true: "client-judges-servers", false: "server-judges-clients"}[c.JudgeClient]
+		faulty := c.Custom && (c.CertFail != 0 || c.CertFailFrom > 0 || c.ListFail != 0 || c.Alias)
+		family := "long-lived-verifier"
+		if c.Custom {
+			family = "certificate-callbacks"
+		}
+		v.Label(family + ":" + mode + ":" + side)
+		anyBad, baitBefore, puppets, faultHit := false, false, 0, false
+		for i, r := range rs {
+			st := c.Steps[i]
+			ok, why := c01Truth(st.Ident, c.Policy, c01Built{})
+			suffix := ":on-long-lived-verifier"
+			if st.Puppet {
+				suffix += ":puppet"
+				puppets++
+			}
+			if r.fault {
+				suffix += ":certificate-lookup-failed"
+				faultHit = true
+			}
+			where := fmt.Sprintf(" [handshake #%d of %d against one verifier; earlier identities: %+v", i, len(rs), c.Steps[:i])
+			if st.Puppet {
+				where += fmt.Sprintf("; the counterpart is the puppet, session ID %q, %d key sets tried", r.learnt, r.tried)
+			}
+			if r.got != "" {
+				where += fmt.Sprintf("; the application read %q", r.got)
+			}
+			if c.Custom {
+				where += fmt.Sprintf("; certificate callbacks with fault plan cert=%b from=%d list=%b alias=%v, a lookup failed during this handshake: %v", c.CertFail, c.CertFailFrom-1, c.ListFail, c.Alias, r.fault)
+			}
+			where += "]"
+			// sanity: an honest valid peer is served wherever it stands in the sequence - unless a lookup failed under it, or it
+			// asked for a host the table does not know
+			sanity := !r.fault && st.SNI == 0 && !(st.Puppet && r.tried == 0)
+			cr := r.c01Result
+			if st.Puppet {
+				// the puppet has no Handshake() result; its honest variant counts as served when its data arrives
+				cr.cliErr = nil
+			}
+			if !c01Judge(v, c.Hidden, c.JudgeClient, st.Ident, c.Policy, cr, suffix, sanity, where) {
+				return
+			}
+			if !ok {
+				anyBad = true
+				v.Label("step-expected:" + why)
+			} else {
+				v.Label("step-expected:acceptable")
+			}
+			if st.Ident.Chain == 6 {
+				baitBefore = true
+			} else if baitBefore && st.Ident.Chain != 0 {
+				v.Label("sequence:untrusted-chain-after-a-bait-handshake")
+			}
+			if i > 0 && !ok && c01Honest(c.Steps[i-1].Ident) {
+				v.Label("sequence:unacceptable-identity-right-after-an-honest-one")
+			}
+			if st.Puppet {
+				v.Label(fmt.Sprintf("puppet:session-id-%s", map[bool]string{true: "known", false: "unknown"}[r.tried > 0]))
+				if r.tried > 0 && r.learnt != "" {
+					v.Label("puppet:session-id-from-" + r.learnt)
+				}
+				if !st.Ident.HoldsKey && r.tried > 0 {
+					v.Label("puppet:impostor-sent-data")
+					if r.fault {
+						v.Label("puppet:impostor-sent-data-after-a-failed-lookup")
+					}
+				}
+				if ok && c01Honest(st.Ident) && r.delivered {
+					v.Label("puppet:honest-variant-served")
+				}
+			}
+			if r.fault {
+				v.Label("lookup-failed-during-handshake")
+			}
+		}
+		if faulty && !faultHit {
+			v.Label("fault-plan-not-reached")
+		}
+		if c.Custom {
+			v.NonTrivial = (faultHit || puppets > 0) && anyBad
+		} else {
+			v.NonTrivial = len(rs) >= 2 && anyBad
+		}
+	}
+}
+
+func c01sGenIdent(t *rapid.T) c01Ident {
+	// near-valid identities: every attribute is mostly at its valid value, so that sequences of "almost acceptable" peers
+	// are common; chains under the untrusted root and baits pointing at it are frequent
+	id := c01Ident{
+		Chain:    rapid.SampledFrom([]int{0, 0, 1, 1, 1, 6, 6, 6, 2, 3, 4, 5}).Draw(t, "chain"),
+		Time:     rapid.SampledFrom([]int{0, 0, 0, 0, 0, 1, 2}).Draw(t, "time"),
+		TypeLeaf: rapid.SampledFrom([]bool{true, true, true, true, true, true, true, false}).Draw(t, "typeLeaf"),
+		Name:     rapid.SampledFrom([]int{0, 0, 0, 0, 0, 3, 8, 1, 2, 5}).Draw(t, "name"),
+		HoldsKey: rapid.SampledFrom([]bool{true, true, true, true, true, false}).Draw(t, "holdsKey"),
+		InSet:    rapid.SampledFrom([]bool{false, false, false, true}).Draw(t, "inSet"),
+		Removed:  rapid.SampledFrom([]bool{false, false, false, true}).Draw(t, "removed"),
+	}
+	if id.Chain == 6 {
+		id.Bait = rapid.SampledFrom([]int{1, 1, 1, 2, 3, 4, 5}).Draw(t, "bait")
+		id.BaitSigned = id.Bait <= 2 && rapid.Bool().Draw(t, "baitSigned")
+	}
+	return id
+}
+
+func c01sGenPolicy(t *rapid.T, server bool) c01Policy {
+	p := c01Policy{
+		Store:    rapid.SampledFrom([]bool{true, true, true, false}).Draw(t, "store"),
+		AuthKeys: rapid.SampledFrom([]bool{false, false, true}).Draw(t, "authKeys"),
+		Skip:     rapid.SampledFrom([]bool{false, false, false, false, false, true}).Draw(t, "skip"),
+		Name:     rapid.SampledFrom([]int{0, 0, 1, 1, 2, 3, 4}).Draw(t, "pname"),
+		Callback: rapid.SampledFrom([]int{0, 0, 0, 1, 2}).Draw(t, "cb"),
+	}
+	if server && rapid.SampledFrom([]int{0, 0, 0, 0, 0, 0, 0, 0, 0, 0, 0, 1}).Draw(t, "nilpolicy") == 1 {
+		p = c01Policy{Nil: true}
+	}
+	return p
+}
+
+func c01sGen(t *rapid.T) c01sCase {
+	c := c01sCase{Hidden: rapid.Bool().Draw(t, "hidden"), JudgeClient: rapid.Bool().Draw(t, "judgeClient")}
+	c.Policy = c01sGenPolicy(t, !c.JudgeClient)
+	c.Steps = rapid.SliceOfN(rapid.Custom(func(t *rapid.T) c01sStep { return c01sStep{Ident: c01sGenIdent(t)} }), 2, 4).Draw(t, "steps")
+	return c
+}
+
+// TestVerifC01Sequence: 2-4 handshakes of generated identities against one long-lived verifier, both directions.
+func TestVerifC01Sequence(t *testing.T) {
+	c01SelfTest(t)
+	vlib.Drive(t, vlib.Spec[c01sCase]{ID: "C01", Quick: 3000, Gen: c01sGen, Run: c01sRun(t)})
+}
+
+func c01fGen(t *rapid.T) c01sCase {
+	c := c01sCase{Hidden: rapid.SampledFrom([]bool{true, true, false}).Draw(t, "hidden"), Custom: true}
+	c.Policy = c01sGenPolicy(t, true)
+	switch rapid.SampledFrom([]int{0, 0, 1, 1, 2, 3, 4}).Draw(t, "plan") {
+	case 0:
+		c.CertFail = rapid.IntRange(1, 15).Draw(t, "certFail")
+	case 1:
+		c.CertFailFrom = 1 + rapid.IntRange(0, 3).Draw(t, "certFailFrom")
+	case 2:
+		c.ListFail = rapid.IntRange(1, 7).Draw(t, "listFail")
+		c.CertFail = rapid.IntRange(0, 7).Draw(t, "certFail")
+	case 3:
+		c.Alias = true
+	}
+	c.Greets = rapid.Bool().Draw(t, "greets")
+	c.Steps = rapid.SliceOfN(rapid.Custom(func(t *rapid.T) c01sStep {
+		st := c01sStep{Puppet: rapid.SampledFrom([]bool{true, true, false}).Draw(t, "puppet")}
+		if rapid.SampledFrom([]int{0, 0, 1}).Draw(t, "kind") == 0 {
+			// the classic impostor (or, with the key, the honest peer): the victim's valid chain
+			st.Ident = c01Ident{TypeLeaf: true, HoldsKey: rapid.SampledFrom([]bool{false, false, true}).Draw(t, "holdsKey"), InSet: rapid.SampledFrom([]bool{false, false, true}).Draw(t, "inSet")}
+		} else {
+			st.Ident = c01sGenIdent(t)
+		}
+		st.Grant = rapid.Bool().Draw(t, "grant")
+		st.SNI = rapid.SampledFrom([]int{0, 0, 0, 0, 0, 1}).Draw(t, "sni")
+		return st
+	}), 1, 4).Draw(t, "steps")
+	return c
+}
+
+// c01PuppetSelfTest: the honest variant of the puppet (valid chain, holds the key) is served in both modes - otherwise
+// the puppet's silence on impostors would mean nothing.
+func c01PuppetSelfTest(t *testing.T) {
+	for _, hidden := range []bool{false, true} {
+		for _, custom := range []bool{false, true} {
+			c := c01sCase{Hidden: hidden, Custom: custom, Policy: c01Policy{Store: true}, Steps: []c01sStep{{Puppet: true, Ident: c01Ident{TypeLeaf: true, HoldsKey: true}}}}
+			var rs []c01sResult
+			res := vlib.Bubble(t, 60*time.Second, func() { rs = c01sScenario(c) })
+			if res.Hung || res.Panic != "" || len(rs) != 1 || !rs[0].accepted || !rs[0].delivered || !strings.HasPrefix(rs[0].got, c01PuppetPayload) {
+				t.Fatalf("VERIF-MACHINERY the honest puppet is not served (hidden=%v callbacks=%v): %+v panic=%q", hidden, custom, rs, res.Panic)
+			}
+		}
+	}
+}
+
+// TestVerifC01LookupFaults: failing certificate callbacks on a long-lived server, real clients and puppets.
+func TestVerifC01LookupFaults(t *testing.T) {
+	c01SelfTest(t)
+	c01PuppetSelfTest(t)
+	vlib.Drive(t, vlib.Spec[c01sCase]{ID: "C01", Quick: 3000, Gen: c01fGen, Run: c01sRun(t)})
 }
